@@ -66,6 +66,15 @@ pub fn run<F: std::future::Future>(f: F) -> F::Output {
 pub const MIN_SECS: i64 = -62_135_596_800; // 0001-01-01T00:00:00Z
 pub const MAX_SECS: i64 = 253_402_300_799; // 9999-12-31T23:59:59Z
 
+/// Coverage-guided tier only (`crate::fuzz`): when set, [`U::blob`] does not build the payload
+/// classes of 64 KiB and more (they cost 10 ms .. 10 s per case under ASan + coverage
+/// instrumentation and are covered by the proptest tier); it returns an empty payload and raises
+/// [`LARGE_HIT`], and the fuzz target discards the input *before* looking at the verdict.  Every
+/// input that reaches the oracle's verdict therefore builds the same value with and without the
+/// switch, which keeps replay files valid for the ordinary replay code.
+pub static SKIP_LARGE: std::sync::atomic::AtomicBool = std::sync::atomic::AtomicBool::new(false);
+pub static LARGE_HIT: std::sync::atomic::AtomicBool = std::sync::atomic::AtomicBool::new(false);
+
 /// Deterministic reader of entropy bytes with coverage bookkeeping.
 pub struct U<'a> {
     data: &'a [u8],
@@ -201,6 +210,10 @@ impl<'a> U<'a> {
                 self.cls("blob:medium");
                 let n = 49 + self.below(600);
                 self.pattern(n)
+            }
+            _ if SKIP_LARGE.load(std::sync::atomic::Ordering::Relaxed) => {
+                LARGE_HIT.store(true, std::sync::atomic::Ordering::Relaxed);
+                vec![]
             }
             _ if self.allow_oversize && self.below(12) == 0 => {
                 self.boundary("blob:over-16MiB-buffer-limit");
